@@ -708,4 +708,4 @@ def main(tier='quick', seed=0, jobs=None, only=None, t0=None):
       bounds=dict(tasks=[t['name'] for t in tasks], box='[-1,1] for state, tangent and cotangent coefficients', eps='1e-9 x coefficient mass'),
       assumptions=['real-arithmetic semantics; kinks: interpolation and upwind advection are decided in the term domain (every branch), elsewhere a comparison on data must be decided by interval arithmetic over the box'],
       trusted=['JAX autodiff produces the IR that is checked', 'dverif interpreter', 'z3/cvc5'],
-      outside=['Held-Suarez forcing: only the adjoint identity and definedness (the exact-derivative clause needs a chain rule through atoms), and only where the floor kink is decided by interval arithmetic over the box', 'multi-stage integrators on the primitive equations (degree explosion); covered on shallow water / by C14 for scan nesting and checkpointing'])
+      outside=['Held-Suarez forcing: exact derivative (chain rule through exp/log/pow atoms), adjoint identity and definedness only on the stated atmospheric box, where the floor kink is decided by interval arithmetic','multi-stage integrators on the primitive equations (degree explosion); covered on shallow water / by C14 for scan nesting and checkpointing'])
